@@ -132,19 +132,22 @@ theorem stepOp_inv {w0 : World} {c v : Nat} (a : Args) {o : List Reg} {f : Frame
     have hr : r ∈ o := by simpa [opOk] using hok
     obtain ⟨id, h1, h2⟩ := h.ownedNew r hr
     rw [h1]
-    exact ⟨worldInv_mutate h.toWorldInv h2 _, h.regsLt, h.ownedNew⟩
+    refine ⟨?_, h.regsLt, h.ownedNew⟩
+    exact worldInv_mutate h.toWorldInv h2 _
   | delItem r =>
     simp only [stepOp, ownedAfter]
     have hr : r ∈ o := by simpa [opOk] using hok
     obtain ⟨id, h1, h2⟩ := h.ownedNew r hr
     rw [h1]
-    exact ⟨worldInv_mutate h.toWorldInv h2 _, h.regsLt, h.ownedNew⟩
+    refine ⟨?_, h.regsLt, h.ownedNew⟩
+    exact worldInv_mutate h.toWorldInv h2 _
   | append r =>
     simp only [stepOp, ownedAfter]
     have hr : r ∈ o := by simpa [opOk] using hok
     obtain ⟨id, h1, h2⟩ := h.ownedNew r hr
     rw [h1]
-    exact ⟨worldInv_mutate h.toWorldInv h2 _, h.regsLt, h.ownedNew⟩
+    refine ⟨?_, h.regsLt, h.ownedNew⟩
+    exact worldInv_mutate h.toWorldInv h2 _
   | store r =>
     simp only [stepOp, ownedAfter]
     split
@@ -228,7 +231,7 @@ theorem runProg_inv {w0 : World} (hw : WF w0) (c v : Nat) (a : Args) :
     | some r =>
       obtain ⟨w, res⟩ := r
       have hf : FrameInv w0 c v [] { w := w0, rg := fun _ => none } :=
-        ⟨WorldInv.refl hw c v, by intro r id h; cases h, by intro r hr; cases hr⟩
+        ⟨WorldInv.refl hw c v, (by intro r id h; cases h), (by intro r hr; cases hr)⟩
       exact runPath_inv a path hf hc.1 hp
     | none => exact runProg_inv hw c v a rest hc.2
 
